@@ -181,3 +181,230 @@ Example C09_nonvacuous_drop :
   snd (d_run d_init [DRecv; DSend 1; DSend 2; DSend 3; DRecv; DRecv; DSend 4; DRecv]) =
   [DNothing; DSent; DSent; DSent; DGot 3; DNothing; DSent; DGot 4].
 Proof. vm_compute. reflexivity. Qed.
+
+(* ------------------------------------------------------------------------------------------ *)
+(* changesAfter and the assembled pipelines (Excess/ChangesAfter.v, Excess/Pipeline.v)          *)
+(* ------------------------------------------------------------------------------------------ *)
+From SC Require Import Excess.ChangesAfter Excess.ChangesAfterProofs Excess.Pipeline Excess.PipelineProofs.
+
+(* Arrival order.  Collection.Update publishes after releasing the lock, so publications of
+   different ids reach a listener in any order (ChangesAfter.v says which orders exactly); what the
+   store keeps is the order of the publications of each id (writes to one id that do not overlap).
+   Two streams with the same per-id subsequences are the same edit script: *)
+Theorem C09_arrival_order_irrelevant_across_ids : forall l1 l2 v,
+  per_id_same l1 l2 -> valid_script l1 v = true ->
+  valid_script l2 v = true /\ (forall i, fold_view l2 v i = fold_view l1 v i).
+Proof. exact reorder_preserves. Qed.
+Print Assumptions C09_arrival_order_irrelevant_across_ids.
+
+(* the lossy front mergeCollectionExcess(changesAfter(in, seeded)): for the committed script hist
+   (commit order), EVERY arrival order with the same per-id subsequences above the threshold --
+   including late arrivals of publications the seed already shows -- and every receive pattern:
+   fold(received) then pending = fold(committed after the seed), received is a valid script *)
+Theorem C09_lossy_front_fold_preserved : forall thr hist acts v0,
+  per_id_same (changes_after thr hist) (changes_after thr (pubs_of acts)) ->
+  valid_script (changes_after thr hist) v0 = true ->
+  let '(s', os) := m_run m_init (l_proj thr acts) in
+  (forall i, fold_view (pending s') (fold_view (got_of os) v0) i = fold_view (changes_after thr hist) v0 i) /\
+  valid_script (got_of os) v0 = true /\
+  (forall n c, nth_error (l_proj thr acts) n = Some (Send c) -> nth_error os n = Some OSent).
+Proof. exact lossy_front_fold_preserved. Qed.
+Print Assumptions C09_lossy_front_fold_preserved.
+
+(* (i) The assembled pipeline writer -> changesAfter -> mergeCollectionExcess -> Pull loop ->
+   subscriber, for EVERY action sequence over Publish / Step i / PRecv (any reader pace, any
+   internal scheduling, any number of seed events still to be taken), any post-processing `post`
+   of the Pull loop (include, read mask, equivalence): what the subscriber has received plus what
+   the Pull loop offers is post applied to a valid edit script D, and D followed by everything
+   upstream folds to what was published above the threshold. *)
+Theorem C09_pipeline_invariant : forall post thr v0 l nseed s' rcv,
+  no_cancel l = true ->
+  valid_script (changes_after thr (published_of l)) v0 = true ->
+  p_run post (p_init thr nseed) l = Some (s', rcv) ->
+  exists D,
+    rcv ++ olist (p_pl s') = filter_map post D /\ valid_script D v0 = true /\
+    (forall i, fold_view (upstream s') (fold_view D v0) i
+               = fold_view (changes_after thr (published_of l)) v0 i) /\
+    closed (p_mg s') = false /\ p_cancel s' = false.
+Proof. exact pipeline_invariant. Qed.
+Print Assumptions C09_pipeline_invariant.
+
+(* ... with the default ReadRequest (post = Some) and any arrival order the store can produce *)
+Theorem C09_pipeline_fold_preserved : forall thr v0 hist l nseed s' rcv,
+  no_cancel l = true ->
+  per_id_same (changes_after thr hist) (changes_after thr (published_of l)) ->
+  valid_script (changes_after thr hist) v0 = true ->
+  p_run Some (p_init thr nseed) l = Some (s', rcv) ->
+  valid_script (rcv ++ olist (p_pl s')) v0 = true /\
+  (forall i, fold_view (upstream s') (fold_view (olist (p_pl s')) (fold_view rcv v0)) i
+             = fold_view (changes_after thr hist) v0 i).
+Proof. exact pipeline_fold_preserved_any_arrival. Qed.
+Print Assumptions C09_pipeline_fold_preserved.
+
+(* (ii) writers never wait for the reader: in every state of the lossy pipeline -- whatever the
+   subscriber has or has not taken, seed included -- the writer's hand-over is enabled, at most
+   after ONE internal step that involves only the two upstream goroutines and changes nothing the
+   reader can see; Publish itself is enabled exactly when changesAfter holds nothing *)
+Theorem C09_lossy_writer_never_waits_for_reader : forall post s p, p_cancel s = false ->
+  (exists s', p_step post s (Publish p) = Some (s', OutNone)) \/
+  (exists s1 s2, p_step post s (Step 0) = Some (s1, OutNone) /\
+                 p_step post s1 (Publish p) = Some (s2, OutNone) /\
+                 p_seed s1 = p_seed s /\ p_pl s1 = p_pl s).
+Proof. exact lossy_writer_never_waits_for_reader. Qed.
+Print Assumptions C09_lossy_writer_never_waits_for_reader.
+
+Theorem C09_lossy_publish_enabled_iff : forall post s p,
+  p_step post s (Publish p) <> None <-> (p_cancel s = false /\ ca_held (p_ca s) = None).
+Proof. exact lossy_publish_enabled_iff. Qed.
+Print Assumptions C09_lossy_publish_enabled_iff.
+
+(* ... and with backpressure they wait exactly for delivery: Publish is enabled iff the seed has
+   been taken and the Pull loop holds nothing, and nothing is dropped: what was received plus what
+   is offered is post of everything published above the threshold, in order *)
+Theorem C09_backpressure_publish_enabled_iff : forall post s p,
+  b_step post s (Publish p) <> None <-> (b_cancel s = false /\ b_seed s = O /\ b_pl s = None).
+Proof. exact bp_publish_enabled_iff. Qed.
+Print Assumptions C09_backpressure_publish_enabled_iff.
+
+Theorem C09_backpressure_nothing_dropped : forall post l s s' out,
+  no_cancel l = true -> b_run post s l = Some (s', out) ->
+  out ++ olist (b_pl s') = olist (b_pl s) ++ filter_map post (changes_after (b_thr s) (published_of l))
+  /\ b_thr s' = b_thr s /\ b_cancel s' = b_cancel s.
+Proof. exact bp_nothing_dropped. Qed.
+Print Assumptions C09_backpressure_nothing_dropped.
+
+(* (iii) eventual delivery, with the measure mu = 3*[changesAfter holds] + 2*|merge queue| +
+   [Pull loop holds] + seed events left: every enabled internal step or receive lowers it, one is
+   enabled while it is positive, so after publishing stops at most mu further steps -- ANY such
+   sequence is at most that long -- empty the pipeline, and then the subscriber has received post
+   of a valid script with the fold of everything published *)
+Theorem C09_pipeline_measure_decreases : forall post s a s' o,
+  closed (p_mg s) = false -> internal_or_recv a = true -> p_step post s a = Some (s', o) ->
+  (mu s' < mu s)%nat /\ closed (p_mg s') = false /\ p_cancel s' = false.
+Proof. exact mu_decreases. Qed.
+Print Assumptions C09_pipeline_measure_decreases.
+
+Theorem C09_pipeline_progress : forall post s, p_cancel s = false -> closed (p_mg s) = false -> (0 < mu s)%nat ->
+  exists a s' o, internal_or_recv a = true /\ p_step post s a = Some (s', o).
+Proof. exact progress. Qed.
+Print Assumptions C09_pipeline_progress.
+
+Theorem C09_pipeline_drain_bound : forall post l s s' out, closed (p_mg s) = false ->
+  forallb internal_or_recv l = true -> p_run post s l = Some (s', out) ->
+  (List.length l + mu s' <= mu s)%nat.
+Proof. exact drain_bound. Qed.
+Print Assumptions C09_pipeline_drain_bound.
+
+Theorem C09_pipeline_eventual_delivery : forall post thr v0 l nseed s rcv,
+  no_cancel l = true ->
+  valid_script (changes_after thr (published_of l)) v0 = true ->
+  p_run post (p_init thr nseed) l = Some (s, rcv) ->
+  exists l2 s2 out2,
+    forallb internal_or_recv l2 = true /\ (List.length l2 <= mu s)%nat /\
+    p_run post s l2 = Some (s2, out2) /\ mu s2 = O /\
+    exists D, rcv ++ out2 = filter_map post D /\ valid_script D v0 = true /\
+      (forall i, fold_view D v0 i = fold_view (changes_after thr (published_of l)) v0 i).
+Proof. exact pipeline_eventual_delivery. Qed.
+Print Assumptions C09_pipeline_eventual_delivery.
+
+(* the trace checker the correspondence uses is sound: an accepted external trace IS a run of the
+   product machine (so all of the above applies to what was observed) *)
+Theorem C09_pipe_checker_sound : forall post fuel thr nseed es,
+  pipe_agrees post fuel thr nseed es = true ->
+  exists l s', p_trace post (p_init thr nseed) l = Some (s', es) /\
+               p_run post (p_init thr nseed) l = Some (s', recvd es) /\ published_of l = epubs es.
+Proof. exact pipe_agrees_sound. Qed.
+Print Assumptions C09_pipe_checker_sound.
+
+Theorem C09_pipe_drained_trace_has_committed_fold : forall fuel thr nseed hist es v0,
+  pipe_agrees_drained Some fuel thr nseed es = true ->
+  per_id_same (changes_after thr hist) (changes_after thr (epubs es)) ->
+  valid_script (changes_after thr hist) v0 = true ->
+  valid_script (recvd es) v0 = true /\
+  (forall i, fold_view (recvd es) v0 i = fold_view (changes_after thr hist) v0 i).
+Proof. exact pipe_agrees_drained_sound. Qed.
+Print Assumptions C09_pipe_drained_trace_has_committed_fold.
+
+Theorem C09_judge_sound_lossy_front : forall seeded hist acts os,
+  agrees (KLossy seeded hist acts os) = true -> C09_guard (KLossy seeded hist acts os) = true ->
+  C09_ok (KLossy seeded hist acts os) = true.
+Proof. exact judge_sound_lossy. Qed.
+Print Assumptions C09_judge_sound_lossy_front.
+
+(* non-vacuity: two writers of different ids publish in the opposite order to their commits while
+   the subscriber is stalled; a stale publication (commit 1, already in the seed) arrives late *)
+Example C09_nonvacuous_pipeline :
+  let a0 := mkChange 0 1 None (Some 1) 0 false false in
+  let u0 := mkChange 0 2 (Some 1) (Some 3) 0 false false in
+  let a1 := mkChange 1 1 None (Some 2) 0 false false in
+  let hist := [mkPub a0 1; mkPub u0 2; mkPub a1 3] in
+  let l := [Publish (mkPub a1 3); Step 0; Publish (mkPub a0 1); Publish (mkPub u0 2); PRecv; Step 1; Step 0; PRecv; Step 1; PRecv] in
+  let v0 := seed_view 1 hist in
+  no_cancel l = true /\
+  per_id_sameb (changes_after 1 hist) (changes_after 1 (published_of l)) = true /\
+  valid_script (changes_after 1 hist) v0 = true /\
+  option_map snd (p_run Some (p_init 1 1) l) = Some [a1; u0] /\
+  pipe_agrees_drained Some 4 1 1 [EPub (mkPub a1 3); EPub (mkPub a0 1); EPub (mkPub u0 2); ESeed; ERecv a1; ERecv u0] = true.
+Proof. vm_compute. auto. Qed.
+
+(* ------------------------------------------------------------------------------------------ *)
+(* Value: writer -> DropExcess -> Pull loop (equivalence against the last value sent) -> subscriber *)
+(* ------------------------------------------------------------------------------------------ *)
+From SC Require Import Excess.ValuePipeProofs.
+
+(* (ii) the writer's hand-over is enabled in every live state, whatever the subscriber has taken *)
+Theorem C09_value_publish_always_enabled : forall eqv s m, v_cancel s = false ->
+  exists s', v_step eqv s (VPublish m) = Some (s', None).
+Proof. exact value_publish_always_enabled. Qed.
+Print Assumptions C09_value_publish_always_enabled.
+
+(* (i)+(iii) for EVERY action sequence over VPublish / VStep / VRecv: once nothing is in flight the
+   last value received is the newest value written, or the newest one was left out because the
+   configured equivalence says it equals the last one received *)
+Theorem C09_value_latest : forall eqv l seed s rcv,
+  vno_cancel l = true -> v_run eqv (v_init seed) l = Some (s, rcv) ->
+  v_mu s = O -> vpublished_of l <> [] ->
+  lastZ rcv = lastZ (vpublished_of l) \/
+  (exists m, lastZ (vpublished_of l) = Some m /\ eqv (lastZ rcv) m = true).
+Proof. exact value_latest. Qed.
+Print Assumptions C09_value_latest.
+
+Theorem C09_value_latest_no_equivalence : forall l seed s rcv,
+  vno_cancel l = true -> v_run (fun _ _ => false) (v_init seed) l = Some (s, rcv) ->
+  v_mu s = O -> vpublished_of l <> [] -> lastZ rcv = lastZ (vpublished_of l).
+Proof. exact value_latest_no_equivalence. Qed.
+Print Assumptions C09_value_latest_no_equivalence.
+
+(* the measure v_mu = 2*[slot full] + [Pull loop holds] + [seed not taken]: any run of internal
+   steps and receives is at most v_mu long, and one that empties the pipeline exists *)
+Theorem C09_value_drain_bound : forall eqv l s s' out, dclosed (v_de s) = false ->
+  forallb v_internal_or_recv l = true -> v_run eqv s l = Some (s', out) ->
+  (List.length l + v_mu s' <= v_mu s)%nat.
+Proof. exact v_drain_bound. Qed.
+Print Assumptions C09_value_drain_bound.
+
+Theorem C09_value_drain_exists : forall eqv n s, (v_mu s <= n)%nat -> v_cancel s = false -> dclosed (v_de s) = false ->
+  (v_seed s <> None -> v_pl s = None) ->
+  exists l s' out, forallb v_internal_or_recv l = true /\ v_run eqv s l = Some (s', out) /\
+                   v_mu s' = O /\ (List.length l <= v_mu s)%nat.
+Proof. exact value_drain_exists. Qed.
+Print Assumptions C09_value_drain_exists.
+
+(* with backpressure the writer's hand-over is enabled exactly when the Pull loop has nothing to deliver *)
+Theorem C09_value_backpressure_publish_enabled_iff : forall eqv s m,
+  w_step eqv s (VPublish m) <> None <-> (w_cancel s = false /\ w_seed s = None /\ w_pl s = None).
+Proof. exact value_bp_publish_enabled_iff. Qed.
+Print Assumptions C09_value_backpressure_publish_enabled_iff.
+
+(* the Value trace checker is sound, and what it accepts as drained has delivered the newest value *)
+Theorem C09_value_checker_sound : forall seed es,
+  value_agrees_drained (fun _ _ => false) seed es = true -> vepubs es <> [] ->
+  lastZ (vrecvd es) = lastZ (vepubs es).
+Proof. exact value_agrees_drained_sound. Qed.
+Print Assumptions C09_value_checker_sound.
+
+Example C09_nonvacuous_value_pipeline :
+  option_map snd (v_run (fun _ _ => false) (v_init (Some 1)) [VPublish 2; VPublish 3; VRecv; VStep; VPublish 4; VRecv; VStep; VRecv])
+    = Some [1; 3; 4] /\
+  value_agrees_drained (fun _ _ => false) (Some 1) [VEPub 2; VEPub 3; VERecv 1; VEPub 4; VERecv 3; VERecv 4] = true.
+Proof. vm_compute. auto. Qed.
